@@ -6,7 +6,7 @@ from common_tb import COMMON_TB
 CFG = dict(
     id="C12", tie="Tie.C12", n_quick=350, n_thorough=1500, thorough_seeds=3,
     rule="a case is one history on a fresh table t(id INTEGER [AUTO_INCREMENT] PK, v INTEGER [NOT NULL], s VARCHAR[1..4]) "
-         "[CHECK (v >= 0)]: 11 scripted histories (the witnesses of every known defect, honest concurrent duplicates, "
+         "[CHECK (v >= 0)]: 11 scripted histories (the witnesses of every defect found and since repaired, honest concurrent duplicates, "
          "delete/re-insert, auto-increment mixed with explicit ids) plus random histories of 8-26 events by 1 session (60%) "
          "or 2 sessions interleaved under a random schedule (40%): autocommit statements, multi-statement implicit "
          "transactions, BEGIN/statement/COMMIT/ROLLBACK, CREATE [UNIQUE] INDEX on populated tables; statements: INSERT "
@@ -39,8 +39,10 @@ CFG = dict(
     ],
     assumptions=[
         "Go control flow transliterated by hand; every observable difference on the generated histories is a reported disagreement",
-        "theorems named *_fixed are about the model with the proposed repairs (fixes/C12-*.diff) switched on; the "
-        "correspondence run ties the model with the repairs switched off to the unchanged code",
+        "the theorems and the correspondence run are about the model with the three repairs this check led to switched on "
+        "(fixed_code = the code as it is: c876bb2, 12bf3b7, a77403f); what the code before them violated stays "
+        "machine-checked in coq/SQLCons/Refuted.v (old_code), and the scripted histories that exposed each defect run on "
+        "every check, where a recurrence is a direct finding (VIOLATION)",
     ],
     gen_timeout=1500,
 )
